@@ -16,7 +16,7 @@ var ops = []string{"NewSink", "NewSource", "SetPacketFilter", "SetReadDeadline",
 
 func classesFor(op string) []string {
 	if op == "Read" {
-		return []string{"fatal", "deadline", "zero"}
+		return []string{"fatal", "deadline", "zero", "fatal-data"}
 	}
 	if op == "SinkClose" || op == "SourceClose" {
 		return []string{"close-fails"}
@@ -107,7 +107,7 @@ func check(it *proto.Item, r *proto.Result) []proto.Issue {
 		}
 	} else {
 		switch cl {
-		case "fatal", "fatal-timeout", "fatal-slow":
+		case "fatal", "fatal-timeout", "fatal-slow", "fatal-data":
 			if o.Err == nil {
 				out = append(out, proto.Issue{Key: "failure-swallowed", Detail: fmt.Sprintf("%s: the run returned success with hops %s", where, proto.HopsString(proto.Hops(o.Run)))})
 			} else {
